@@ -58,6 +58,38 @@ def analyse():
     draws = []
     for rel in sorted(files):
         mod = frontend.module(rel)
+        # import-time code: module level statements, class bodies, decorators and DEFAULT ARGUMENT expressions are evaluated
+        # when the module is imported - i.e. possibly before the user seeds the generators: no draw, no entropy source there
+        bad_import = []
+
+        def scan_import_time(node, where):
+            for n in ast.walk(node):
+                if isinstance(n, ast.Call):
+                    d = _dotted(n.func)
+                    if d is None:
+                        continue
+                    head = d[0]
+                    full = '.'.join([mod.imports[head]] + d[1:]) if head in mod.imports else '.'.join(d)
+                    if full in GLOBAL_DRAWS or any(full.startswith(p) for p in FORBIDDEN_PREFIXES) \
+                            or full.startswith('random.') or full.startswith('numpy.random.') or head in FORBIDDEN_BUILTINS:
+                        bad_import.append(f"line {n.lineno}: {full}(...) is evaluated at import time ({where})")
+        for node in mod.tree.body:
+            if isinstance(node, (ast.FunctionDef, ast.ClassDef)):
+                defs = [node] if isinstance(node, ast.FunctionDef) else \
+                    [n for n in node.body if isinstance(n, ast.FunctionDef)]
+                for fd in defs:
+                    for dflt in list(fd.args.defaults) + [d for d in fd.args.kw_defaults if d is not None]:
+                        scan_import_time(dflt, f"default argument of {fd.name}")
+                    for dec in fd.decorator_list:
+                        scan_import_time(dec, f"decorator of {fd.name}")
+                if isinstance(node, ast.ClassDef):
+                    for n in node.body:
+                        if not isinstance(n, ast.FunctionDef):
+                            scan_import_time(n, f"body of class {node.name}")
+            elif not isinstance(node, (ast.Import, ast.ImportFrom)):
+                scan_import_time(node, "module level")
+        out.append({'id': f"{rel}/import_time/no_entropy", 'ok': not bad_import, 'function': rel, 'file': rel,
+                    'detail': '; '.join(bad_import)})
         funcs = [(None, f) for f in mod.functions.values()]
         for cname, (cdef, methods, bases) in mod.classes.items():
             funcs += [(cname, m) for m in methods.values()]
